@@ -57,8 +57,8 @@ Definition stamp_val (clk : bytes) (r : recval) : recval :=
 Definition stamp_for (clk : bytes) (k : string) (r : recval) : recval :=
   if String.eqb k "FileHeader" then stamp_val clk r else r.
 Definition stamp_rec (clk : bytes) (x : recordR) : recordR := mkRec (r_kind x) (stamp_for clk (r_kind x) (r_val x)).
-Definition stamp (clk : bytes) (f : fileR) : fileR :=
-  mkFil (stamp_rec clk (fl_hdr f)) (fl_batches f) (fl_iat f) (fl_ctl f).
+(* every record of kind FileHeader (there is one, the file's) with an empty creation time gets the clock *)
+Definition stamp (clk : bytes) (f : fileR) : fileR := map_file (stamp_rec clk) f.
 
 (* ------------------------------------------------------------------ *)
 (* why a parsed column has its width                                    *)
